@@ -13,14 +13,16 @@ def box(ctx):
     N, MB, D = 200, 70, 8
     extra_mb = [128, 1024, 5000]
     full = [(n, mb, d) for n in range(1, N + 1) for mb in list(range(1, MB + 1)) + extra_mb for d in range(1, D + 1)]
+    # far outside the box (layout arithmetic only; the model computes in Z): a layout rule that changes with the size of the problem
+    big = [(n, mb, d) for n in (1000, 4097, 65536, 65537, 100003, 1048577, 16777217) for mb in (1, 64, 1000, 1024, 4096, 65536, 10 ** 6) for d in (1, 2, 3, 8)]
     if ctx.tier == "thorough":
-        return full, True
+        return full + big, True
     corner = set()
     for n, mb, d in full:
         if n < d or mb == 1 or n in PRIMES and mb in (1, 2, 3, 64, 65) or n == d * min(mb, 64) or n == d * 64 or mb in extra_mb and n % 50 == 0:
             corner.add((n, mb, d))
     sample = set(ctx.rng.sample(full, len(full) // 20))
-    return sorted(corner | sample), False
+    return sorted(corner | sample | set(big)), False
 
 
 def array_cases(ctx):
@@ -30,6 +32,8 @@ def array_cases(ctx):
     k = 60 if ctx.tier == "quick" else 400
     for i, c in enumerate(ctx.rng.sample(pool, min(k, len(pool)))):
         cases.append(list(c) + [trailings[i % 3]])
+    # thousands of states: several full batches on every device
+    cases += [[5003, 1000, 3, [3]], [20011, 4096, 2, []], [8192, 1024, 8, [2, 3]]]
     return cases
 
 
@@ -110,7 +114,7 @@ def run(ctx, build):
     cov = {
         "evaluations": len(keys) + len(arrays),
         "distinct_nontrivial": len(nontrivial),
-        "rule": "cases are distinct (n_states, max_batch_size, n_devices) triples from the box n<=200, mb<=70 (+128,1024,5000), d<=8 "
+        "rule": "cases are distinct (n_states, max_batch_size, n_devices) triples from the box n<=200, mb<=70 (+128,1024,5000), d<=8, plus 196 triples with n up to 2^24+1 and array round trips on up to 20011 states "
                 "(thorough: all; quick: all corner lines + seeded 5% sample); non-trivial = padding > 0 and (several batches or several devices)",
         "exhaustive": bool(exhaustive),
         "samples": [{"input": list(k), "impl": attrs[k]} for k in keys[:: max(1, len(keys) // 6)]][:6] + [{"array_case": acases[0], "impl": {"pshape": arrays[0].get("pshape"), "ushape": arrays[0].get("ushape")}}] if arrays else [],
